@@ -143,6 +143,8 @@ func runC14(r *vc.Run, replay string) {
 	add("dup-seq", 64)
 	add("dup-race", 8)
 	add("dup-race", 64)
+	add("dup-race", 256)
+	add("dup-race", 256)
 	add("unsolicited", 8)
 	add("collide", 8)
 	add("collide", 64)
@@ -361,8 +363,8 @@ func c14Run(r *vc.Run, w *world.World, ch *vc.Child, ctl *c14Ctl, sc *c14Scenari
 			case "dup-race":
 				body, _ := wire.Encode(m)
 				raw := wire.EncodeFrame(&wire.Frame{Version: 1, Type: wire.FrameResponse, Codec: 1, ID: q.Frame.ID, Body: body})
-				// 2..8 copies of the reply in one write: the client's task pool works on them at the same time
-				copies := 2 + (k*5+i)%7
+				// 2..17 copies of the reply in one write: the client's task pool works on them at the same time
+				copies := 2 + (k*5+i)%16
 				var burst []byte
 				for n := 0; n < copies; n++ {
 					burst = append(burst, raw...)
